@@ -162,6 +162,8 @@ class Gen:
             s = self.flow(0)
             if nm:
                 self.anchors.append(nm)
+            if r.random() < 0.25 and (s.startswith(("[", "{"))):
+                s += " " + self.comment()          # line comment after a flow collection
             return pre + s, []
         n = r.choice([1, 1, 2, 3, 4])
         pre, nm = self.maybe_anchor()
@@ -243,6 +245,7 @@ class Gen:
 
 
 ADVERSARIAL_STREAMS = [
+    "branches: [main] # c1\nresources: {} # c2\nl:\n  - [a, b] # c3\n  - {k: v} # c4\n  - [] # c5\n", "- {a: 1} # c1\n- [x] # c2\n", "k: {a: [1, 2]} # c1 note\n",
     "- |2-\n\n  a\n", "k: |2\n\n  a\n  b\n", "- \"\\n\\nx\\ny\"\n",
     # header comments indented with TAB / mixed blanks, white-space-only lines, CRLF
     "\t# x\na: 1\n", " \t # x\na: 1\n", "\t\n# c\na: 1\n", "# c\r\na: 1\r\n", "\t# x\n\n \t# y\n---\na: 1\n", "# c\r\n\r\n# d\r\na: 1\n", " \r\n#c\na: 1\n",
